@@ -56,6 +56,21 @@ def run(ctx, only_cases=None):
         # the non-atomic fallback inside ONE generator instance (store without SetNX): all 2-caller schedules of length 4
         cases += [{"mode": "fallback", "n": 2, "sched": list(s)} for s in itertools.product([0, 1], repeat=4)]
         cases += [{"mode": "fallback", "n": 3, "sched": [ctx.rng.randrange(3) for _ in range(8)]} for _ in range(40 if thorough else 8)]
+        # ... and with failing storage calls: each of the first Exists / Set calls made to fail, alone and in pairs
+        cases += [{"mode": "fallback", "n": 2, "sched": list(s), "fault_exists": fe, "fault_set": fs}
+                  for s in ([0, 0, 1, 1], [0, 1, 0, 1], [1, 0, 0, 1]) for fe in ([1], [2], [3], [2, 3], []) for fs in ([], [1], [2]) if fe or fs]
+        cases += [{"mode": "fallback", "n": 3, "sched": [ctx.rng.randrange(3) for _ in range(8)],
+                   "fault_exists": sorted(ctx.rng.sample(range(1, 9), ctx.rng.choice([1, 2, 3]))), "fault_set": ctx.rng.choice([[], [1], [2]])}
+                  for _ in range(60 if thorough else 12)]
+        # UUID-based generators under failing entropy reads (never two failures in a row: uuid.New() would panic)
+        for _ in range(300 if thorough else 40):
+            fails, prev = [], False
+            for _i in range(ctx.rng.choice([4, 8, 16])):
+                f = (not prev) and ctx.rng.random() < 0.45
+                fails.append(f)
+                prev = f
+            cases.append({"mode": "uuid", "n": ctx.rng.choice([2, 3, 6]), "kind": ctx.rng.randrange(4), "fails": fails})
+        cases += [{"mode": "uuid", "n": 2, "kind": k, "fails": [True, False, True, False]} for k in range(4)]
         cases += [{"mode": "ttl"}]
         # node-id allocator sequences: allocate / lease lapses / release on 2-3 allocator objects over one store
         cases += [{"mode": "nodeseq", "n": 2, "sched": list(s)} for s in itertools.product(range(6), repeat=4)][:: (1 if thorough else 5)]
@@ -69,16 +84,20 @@ def run(ctx, only_cases=None):
             nfail += 1
             if nfail <= 3:
                 kind = {"node": "node-id-duplicate", "nodeseq": "node-id-duplicate-after-lease-lapse", "nodefault": "node-id-duplicate-on-shared-cache-fault", "birthday": "duplicate-live-id-real-collision",
-                        "fallback": "fallback-duplicate", "ttl": "marker-lifetime"}.get(
+                        "fallback": "fallback-duplicate", "uuid": "uuid-duplicate-under-entropy-fault", "ttl": "marker-lifetime"}.get(
                     c["mode"], "leak" if "marker" in o["prop_msg"] else "duplicate-live-id")
                 ctx.violation(kind, "real idgen/node allocator: " + o["prop_msg"], {"case": c, "observed": o})
     sc = [(c, o) for c, o in zip(cases, outs) if c["mode"] == "sched"]
+    uu = [(c, o) for c, o in zip(cases, outs) if c["mode"] == "uuid"]
     terms = [case_value(c, o) for c, o in sc]
+    # uuid cases: the entropy reads actually made (index or failure) and, per returned id, the read it is made of
+    terms += [[9, c["n"], [[d] if d else [] for d in (o.get("draws") or [])], [max(x, 0) for x in (o.get("ids") or []) if x >= 0]] for c, o in uu]
+    sc = sc + uu
     mism = []
     try:
         res = vlib.model_eval("C15", terms)
         mism = [i for i, ok in enumerate(res) if not ok]
-        small = [i for i in range(len(terms)) if len(sc[i][1]["sched"]) < 40][:25]
+        small = [i for i in range(len(terms)) if len(sc[i][1]["sched"]) < 40][:25] + list(range(len(terms) - len(uu), len(terms)))[:6]
         vm_bad = sorted(small[k] for k in vlib.vm_crosscheck("C15", [terms[i] for i in small]))
         if vm_bad != sorted(i for i in small if not res[i]):
             raise vlib.Broken("extracted runner and vm_compute disagree on the C15 model", str(vm_bad))
@@ -91,7 +110,7 @@ def run(ctx, only_cases=None):
                           "on which the Go-side uniqueness predicate holds", {"case": sc[i][0], "observed": sc[i][1]}, found_input=False)
     nontriv = set()
     stats = {"collisions": 0, "exhausted": 0, "released": 0, "got": 0, "faults_injected": 0}
-    for c, o in sc:
+    for c, o in sc[:len(sc) - len(uu)]:
         coll = sum(len(t["cands"]) for t in o["threads"]) - sum(1 for t in o["threads"] for k, _ in t["log"] if k == 0)
         stats["collisions"] += coll
         for t in o["threads"]:
@@ -108,12 +127,17 @@ def run(ctx, only_cases=None):
                 "(failed SetNX) and a non-empty prescribed schedule; distinct by (scripts, schedule, pre). Plus concurrent NodeIDAllocator runs.",
         "samples": [{"case": sc[i][0], "observed": {"threads": sc[i][1]["threads"] if len(json.dumps(sc[i][1]["threads"])) < 1500 else "…", "markers": sc[i][1]["markers"]}} for i in (0, 1) if i < len(sc)],
         "model_vs_impl_cases": len(terms), "model_vs_impl_mismatches": len(mism), "impl_property_failures": nfail,
-        "input_distribution": dict(stats, schedules=len(sc), node_allocator_runs=len(cases) - len(sc)),
+        "input_distribution": dict(stats, schedules=len(sc) - len(uu), uuid_entropy_fault_cases=len(uu),
+                                   uuid_failed_reads=sum(sum(1 for d in (o.get("draws") or []) if not d) for _, o in uu),
+                                   fallback_cases=sum(1 for c in cases if c["mode"] == "fallback"),
+                                   fallback_cases_with_faults=sum(1 for c in cases if c["mode"] == "fallback" and (c.get("fault_exists") or c.get("fault_set"))),
+                                   other_runs=len(cases) - len(sc)),
         "generated_file_changed": gen_changed,
     })
     ctx.assumptions += ["each storage call (SetNX/Delete) is atomic (memory.Storage mutex / Redis command); marker TTL expiry (30 days) is not exercised",
                         "candidate randomness is not modelled: theorems hold for arbitrary candidate streams",
-                        "fallback branch for stores without SetNX: refuted for two instances, unreachable with shipped stores (side condition)"]
+                        "fallback branch for stores without SetNX: refuted for two instances, unreachable with shipped stores (side condition)",
+                        "UUID generators: successful 122-bit entropy draws are pairwise distinct (hypothesis of C15_uuid_unique_any_entropy_faults; the birthday run measures it); two failing entropy reads in a row make uuid.New() panic — not generated"]
     if broken is not None:
         raise broken
 
